@@ -276,17 +276,19 @@ var seeds = map[string][]string{
 	"version.Parse":                 {"1.0-1", "2:3.0~rc1+b2-1.1", " 1.0 ", "0:0-", "1:", "a", ""},
 	"dependency.ParseArch":          {"amd64", "linux-any", "gnu-kfreebsd-amd64", "any", "all", "a-b-c-d", ""},
 	"dependency.ParseArchitectures": {"any all", "amd64 i386  armhf", "linux-any\nkfreebsd-amd64", ""},
-	"dependency.Parse":              {"foo, bar | baz", "a:any (>= 1.0) [amd64 !i386] <!x y> <z>, ${misc:Depends}", "foo (>= 1", "foo [amd64", "a b", "foo,\n bar\n", ""},
-	"control.ParagraphReader":       {"A: 1\nB: 2\n c\n .\n\nC: 3\n", "# c\nA:\n x\n", "no colon\n", " orphan\n", "A: 1\r\n\r\nB: 2", ""},
-	"control.ParagraphReader.Next":  {"A: 1\nB: 2\n c\n .\n\nC: 3\n", "# c\nA:\n x\n", "no colon\n", " orphan\n", ""},
-	"control.ParseDsc":              {"Format: 3.0 (quilt)\nSource: hello\nBinary: hello, hello-doc\nArchitecture: any all\nVersion: 2.10-1\nBuild-Depends: debhelper (>= 9)\nFiles:\n d41d8cd98f00b204e9800998ecf8427e 10 hello_2.10-1.dsc\n", "Version: a\n", "Files:\n x\n", ""},
-	"control.ParseChanges":          {"Format: 1.8\nSource: hello\nBinary: hello\nArchitecture: source\nVersion: 2.10-1\nFiles:\n d41d8cd98f00b204e9800998ecf8427e 10 devel optional hello_2.10-1.dsc\n", "Version: a\n", "Files:\n d41d 10 f\n", ""},
-	"control.ParseControl":          {"Source: hello\nBuild-Depends: debhelper (>= 9)\n\nPackage: hello\nArchitecture: any\nDepends: ${misc:Depends}, a | b\nDescription: x\n long\n", "Source: x\nBuild-Depends: ((\n", "Source: x\n\nPackage: y\nDepends: a b\n", ""},
-	"control.ParseBinaryIndex":      {"Package: hello\nVersion: 2.10-1\nInstalled-Size: 280\nArchitecture: amd64\nSize: 10\n\nPackage: b\nVersion: 1\n", "Package: a\nVersion: 1\n\nPackage: b\nVersion: !\n", "Package: a\nInstalled-Size: x\n", ""},
-	"control.ParseSourceIndex":      {"Package: hello\nBinary: hello, hello-doc\nVersion: 2.10-1\nArchitecture: any all\nFiles:\n d41d8cd98f00b204e9800998ecf8427e 10 hello_2.10-1.dsc\n\nPackage: b\nVersion: 1\n", "Package: a\nVersion: 1\n\nPackage: b\nFiles:\n x\n", ""},
-	"deb.Control":                   {"Package: hello\nVersion: 2.10-1\nArchitecture: amd64\nDepends: a | b\nInstalled-Size: 10\n", "Package: hello\n", "Package: hello\nVersion: 1\nArchitecture: amd64\nInstalled-Size: x\n", ""},
-	"changelog.Parse":               {"hello (1.0-1) unstable; urgency=low\n\n  * x\n\n -- A <a@b>  Mon, 02 Jan 2006 15:04:05 +0100\n\nhello (0.9-1) unstable; urgency=low\n\n  * y\n\n -- A <a@b>  Sun, 01 Jan 2006 15:04:05 +0100\n", "hello (1.0-1) unstable; urgency=low\n\n  * x\n", "hello (a) unstable;\n", ""},
-	"changelog.ParseOne":            {"hello (1.0-1) unstable; urgency=low\n\n  * x\n\n -- A <a@b>  Mon, 02 Jan 2006 15:04:05 +0100\n", " x\n", ""},
+	"dependency.Parse": {"foo, bar | baz", "a:any (>= 1.0) [amd64 !i386] <!x y> <z>, ${misc:Depends}", "foo (>= 1", "foo [amd64", "a b", "foo,\n bar\n", "",
+		// one seed per error path of the parser
+		"foo (>= 1.0 beta)", "foo (>= 1.0 ", "foo [!a b]", "foo [a !b]", "foo <!!x>", "foo <x!y>", "foo (?? 1)", "foo (>", "${x", "a (>= 1) (<< 2)", "a [x] [y]", "a <x", "b (<< 2.0~rc1) | c (= 1:1-1)"},
+	"control.ParagraphReader":      {"A: 1\nB: 2\n c\n .\n\nC: 3\n", "# c\nA:\n x\n", "no colon\n", " orphan\n", "A: 1\r\n\r\nB: 2", ""},
+	"control.ParagraphReader.Next": {"A: 1\nB: 2\n c\n .\n\nC: 3\n", "# c\nA:\n x\n", "no colon\n", " orphan\n", ""},
+	"control.ParseDsc":             {"Format: 3.0 (quilt)\nSource: hello\nBinary: hello, hello-doc\nArchitecture: any all\nVersion: 2.10-1\nBuild-Depends: debhelper (>= 9)\nFiles:\n d41d8cd98f00b204e9800998ecf8427e 10 hello_2.10-1.dsc\n", "Version: a\n", "Files:\n x\n", ""},
+	"control.ParseChanges":         {"Format: 1.8\nSource: hello\nBinary: hello\nArchitecture: source\nVersion: 2.10-1\nFiles:\n d41d8cd98f00b204e9800998ecf8427e 10 devel optional hello_2.10-1.dsc\n", "Version: a\n", "Files:\n d41d 10 f\n", ""},
+	"control.ParseControl":         {"Source: hello\nBuild-Depends: debhelper (>= 9)\n\nPackage: hello\nArchitecture: any\nDepends: ${misc:Depends}, a | b\nDescription: x\n long\n", "Source: x\nBuild-Depends: ((\n", "Source: x\n\nPackage: y\nDepends: a b\n", ""},
+	"control.ParseBinaryIndex":     {"Package: hello\nVersion: 2.10-1\nInstalled-Size: 280\nArchitecture: amd64\nSize: 10\n\nPackage: b\nVersion: 1\n", "Package: a\nVersion: 1\n\nPackage: b\nVersion: !\n", "Package: a\nInstalled-Size: x\n", ""},
+	"control.ParseSourceIndex":     {"Package: hello\nBinary: hello, hello-doc\nVersion: 2.10-1\nArchitecture: any all\nFiles:\n d41d8cd98f00b204e9800998ecf8427e 10 hello_2.10-1.dsc\n\nPackage: b\nVersion: 1\n", "Package: a\nVersion: 1\n\nPackage: b\nFiles:\n x\n", ""},
+	"deb.Control":                  {"Package: hello\nVersion: 2.10-1\nArchitecture: amd64\nDepends: a | b\nInstalled-Size: 10\n", "Package: hello\n", "Package: hello\nVersion: 1\nArchitecture: amd64\nInstalled-Size: x\n", ""},
+	"changelog.Parse":              {"hello (1.0-1) unstable; urgency=low\n\n  * x\n\n -- A <a@b>  Mon, 02 Jan 2006 15:04:05 +0100\n\nhello (0.9-1) unstable; urgency=low\n\n  * y\n\n -- A <a@b>  Sun, 01 Jan 2006 15:04:05 +0100\n", "hello (1.0-1) unstable; urgency=low\n\n  * x\n", "hello (a) unstable;\n", ""},
+	"changelog.ParseOne":           {"hello (1.0-1) unstable; urgency=low\n\n  * x\n\n -- A <a@b>  Mon, 02 Jan 2006 15:04:05 +0100\n", " x\n", ""},
 }
 
 func Run(r *mc.Run) {
